@@ -18,6 +18,8 @@ Keys 32 bytes lowercase hex; `-` = none / empty list.
 * `<state>` = `ops=<I:key:pn,U:pos:pn,K:start:end:sum,…> g=<first key:len|->/<prefix_len>/<sum>/<prefix_compressed|->/<n> v=<valid_gauge> low=<n|-> cut=<cutoff>`
 * `stage <separator@id,…|-> <key:pn,key:-,…>` — the whole real stage (`branch_stage::run`, one worker) on the index of the
   given nodes: `out=<separator|o<bbn> or separator|n|pl|pc|items;…> freed=<pn,…>`
+* a `digest` / `stage` that produces a node whose encoding needs more than BRANCH_NODE_BODY_SIZE bytes (separators and node
+  pointers overlap in the page; the content of such a page is not defined): `overfull`, the updater is unusable afterwards
 * any call that panics: `panic` (the updater is unusable afterwards: every later call answers `dead`)
 -/
 namespace Nomt.Driver
@@ -124,7 +126,9 @@ def branchupdStep (s : BuState) (line : String) : BuState × String :=
     | some db, some cs =>
       match runWorker kfReal db cs with
       | none => (s, "panic")
-      | some (out, released) => (s, s!"out={buShowOut out} freed={buShowNats released}")
+      | some (out, released) =>
+        if out.any (fun o => match o with | .new p => decide (BODY < p.node.body) | .old _ => false) then (s, "overfull")
+        else (s, s!"out={buShowOut out} freed={buShowNats released}")
     | _, _ => (s, "bad-op")
   | cmd :: args =>
     match s.st with
@@ -151,6 +155,7 @@ def branchupdStep (s : BuState) (line : String) : BuState × String :=
         match digest kfReal st with
         | none => ({ s with st := none }, "panic")
         | some (st', nodes, res) =>
+          if nodes.any (fun p => decide (BODY < p.node.body)) then ({ s with st := none }, "overfull") else
           let fail? : Option Nat := if failAt == "-" then none else failAt.toNat?
           let r := match res with | .finished => "fin" | .needsMerge c => s!"merge:{hexOfNatKey c}"
           match fail? with
